@@ -1437,7 +1437,7 @@ def remove_redundant_input_table_name(query_text):
     return query_text
 
 
-def select_output_header(input_header, join_header, query_column_infos):
+def select_output_header(input_header, join_header, query_column_infos, leading_column_names=None):
     if input_header is None:
         assert join_header is None
     query_has_star = False
@@ -1456,7 +1456,7 @@ def select_output_header(input_header, join_header, query_column_infos):
     if join_header is None:
         # This means that there is no join table.
         join_header = []
-    output_header = []
+    output_header = [] if leading_column_names is None else list(leading_column_names)
     for qci in query_column_infos:
         if qci is None:
             output_header.append('col{}'.format(len(output_header) + 1))
@@ -1565,18 +1565,22 @@ def shallow_parse_input_query(query_text, input_iterator, tables_registry, query
 
     if SELECT in rb_actions:
         query_context.top_count = find_top(rb_actions)
+        # "DISTINCT COUNT" puts the number of occurrences in front of every output record, so the header needs a name for it too
+        leading_column_names = ['count'] if 'distinct_count' in rb_actions[SELECT] else None
 
         if EXCEPT in rb_actions:
             if JOIN in rb_actions:
                 raise RbqlParsingError('EXCEPT and JOIN are not allowed in the same query') # UT JSON
             output_header, select_expression = translate_except_expression(rb_actions[EXCEPT]['text'], input_variables_map, string_literals, input_header)
+            if output_header is not None and leading_column_names is not None:
+                output_header = leading_column_names + output_header
         else:
             select_expression, select_expression_for_ast = translate_select_expression(rb_actions[SELECT]['text'])
             select_expression = combine_string_literals(select_expression, string_literals)
             # We need to add string literals back in order to have relevant errors in case of exceptions during parsing
             combined_select_expression_for_ast = combine_string_literals(select_expression_for_ast, string_literals)
             column_infos = ast_parse_select_expression_to_column_infos(combined_select_expression_for_ast)
-            output_header = select_output_header(input_header, join_header, column_infos)
+            output_header = select_output_header(input_header, join_header, column_infos, leading_column_names)
         query_context.select_expression = select_expression
         query_context.writer.set_header(output_header)
 
